@@ -65,7 +65,12 @@ func PeerEntities() []world.EntSpec {
 }
 
 // New builds the world with n peers.
-func New(n int) *W {
+func New(n int) *W { return NewWithUnannounced(n, 0) }
+
+// NewWithUnannounced builds the world with n peers of which the last k are connected only: the
+// stack has not received their discovery data, so it neither knows their device address nor any
+// feature besides the node management feature every remote device starts with.
+func NewWithUnannounced(n, k int) *W {
 	w := &W{World: world.New()}
 	le := w.AddLocalEntity([]uint{1}, model.EntityTypeTypeCEM, time.Second)
 	w.Entity = le
@@ -86,8 +91,15 @@ func New(n int) *W {
 	}})
 	w.Servers = append(w.Servers, LocalServer{F: f2, Type: s0.ft, Writable: s0.rw, ReadOnly: s0.ro, Unannounced: s0.un})
 	for i := 0; i < n; i++ {
+		if i >= n-k {
+			p := w.Connect(fmt.Sprintf("ski-%d", i+1), fmt.Sprintf("d:_r:peer%d", i+1))
+			w.Sync()
+			p.Cap.Drain()
+			continue
+		}
 		w.AddPeer(fmt.Sprintf("ski-%d", i+1), fmt.Sprintf("d:_r:peer%d", i+1), PeerEntities())
 	}
+	w.Events.Drain()
 	return w
 }
 
@@ -136,7 +148,10 @@ var callTypes = []model.FeatureTypeType{model.FeatureTypeTypeMeasurement, model.
 // DrawCall draws a call; mostly well-typed pairs so that grants are frequent.
 func DrawCall(t *rapid.T, w *W, label string) Call {
 	c := Call{Peer: rapid.IntRange(0, len(w.Peers)-1).Draw(t, label+".peer")}
-	if rapid.IntRange(0, 3).Draw(t, label+".wellformed") != 0 {
+	if nm := (Ref{[]uint{0}, 0}); w.Peers[c.Peer].Ents == nil && rapid.IntRange(0, 3).Draw(t, label+".nodeManagement") != 0 {
+		// all a peer can ask for before it has announced itself: node management to node management
+		c.Server, c.Client, c.Type = nm, nm, model.FeatureTypeTypeNodeManagement
+	} else if rapid.IntRange(0, 3).Draw(t, label+".wellformed") != 0 {
 		// matching pair by type
 		si := rapid.IntRange(0, len(w.Servers)-1).Draw(t, label+".server")
 		c.Server = ServerRefs[si]
@@ -187,7 +202,11 @@ func (w *W) Eligible(c Call) bool {
 	if sf == nil || !roleOK(sf.Role(), model.RoleTypeServer) || sf.Type() != c.Type {
 		return false
 	}
-	for _, e := range w.Peers[c.Peer].Ents {
+	ents := w.Peers[c.Peer].Ents
+	if ents == nil {
+		ents = world.WithDeviceInfo(nil) // what the stack assumes of a remote device it knows nothing about
+	}
+	for _, e := range ents {
 		if !reflect.DeepEqual(e.Addr, c.Client.Ent) {
 			continue
 		}
